@@ -98,6 +98,8 @@ func execAlgCase(c algCase, _ core.Source) core.Result {
 		return execAlg(c, seInts)
 	case "any":
 		return execAlg(c, seAny)
+	case "any-hard":
+		return execAlg(c, seAnyHard)
 	default:
 		return execAlg(c, seSet)
 	}
@@ -385,7 +387,7 @@ var algOps = []string{"And", "Or", "Sans", "Xor"}
 
 func genAlgExhaustive(universe int) func(core.Source) algCase {
 	return func(s core.Source) algCase {
-		c := algCase{Elem: core.Pick(s, []string{"int", "string", "float"}, "elem"), Collator: "default"}
+		c := algCase{Elem: core.Pick(s, []string{"int", "string", "float", "any-hard"}, "elem"), Collator: "default"}
 		c.Op = core.Pick(s, algOps, "op")
 		ma := s.Choose(1<<universe, "A")
 		mb := s.Choose((1<<universe)+1, "B") // the extra value = alias (A, A)
@@ -403,12 +405,12 @@ func genAlgExhaustive(universe int) func(core.Source) algCase {
 }
 
 func genAlgRandom(s core.Source) algCase {
-	c := algCase{Elem: core.Pick(s, []string{"int", "string", "float", "ints", "any", "set"}, "elem")}
+	c := algCase{Elem: core.Pick(s, []string{"int", "string", "float", "ints", "any", "any-hard", "set"}, "elem")}
 	c.Collator = core.Pick(s, []string{"default", "reversed", "coarse"}, "collator")
-	if (c.Elem == "any" || c.Elem == "set") && c.Collator == "coarse" {
+	if (c.Elem == "any" || c.Elem == "any-hard" || c.Elem == "set") && c.Collator == "coarse" {
 		c.Collator = "reversed"
 	}
-	if c.Elem != "any" && s.Choose(6, "tight") == 0 {
+	if c.Elem != "any" && c.Elem != "any-hard" && s.Choose(6, "tight") == 0 {
 		c.Collator = "tight"
 	}
 	c.Op = core.Pick(s, algOps, "op")
